@@ -30,6 +30,7 @@ type LockFile struct {
 	Property    string   `json:"property"`
 	Obligations []string `json:"obligations"`
 	Unclaimed   []string `json:"unclaimed"`
+	DeadPaths   []string `json:"dead_paths"` // path covers that are unsatisfiable on the pinned tree (defensive code made unreachable by an invariant)
 }
 
 func hasPropTag(tags []string, prop string) bool {
@@ -330,6 +331,11 @@ func cmdCheck(args []string) int {
 	for _, n := range lock.Obligations {
 		locked[n] = true
 	}
+	deadOK := map[string]bool{}
+	for _, n := range lock.DeadPaths {
+		deadOK[n] = true
+	}
+	var deadSeen []string
 	unclaimedOK := map[string]bool{}
 	for _, n := range lock.Unclaimed {
 		unclaimedOK[n] = true
@@ -339,6 +345,9 @@ func cmdCheck(args []string) int {
 		nl := &LockFile{Property: *prop}
 		for _, o := range cc.obls {
 			if o.Kind == "cover" {
+				if o.Status == "failed" && strings.Contains(o.Name, "/cover/path:") {
+					nl.DeadPaths = append(nl.DeadPaths, o.Name)
+				}
 				continue
 			}
 			if o.Status == "discharged" {
@@ -349,6 +358,7 @@ func cmdCheck(args []string) int {
 		}
 		sort.Strings(nl.Obligations)
 		sort.Strings(nl.Unclaimed)
+		sort.Strings(nl.DeadPaths)
 		b, _ := json.MarshalIndent(nl, "", " ")
 		os.MkdirAll(filepath.Join(*verif, "obligations"), 0o755)
 		os.WriteFile(filepath.Join(*verif, "obligations", *prop+".lock"), append(b, '\n'), 0o644)
@@ -372,6 +382,10 @@ func cmdCheck(args []string) int {
 			coverN++
 			if o.Res.Verdict == "sat" {
 				coverSat++
+			}
+			if o.Status == "failed" && deadOK[o.Name] {
+				deadSeen = append(deadSeen, o.Name)
+				continue
 			}
 			if o.Status == "failed" {
 				// vacuous precondition: the check itself is broken, report as violation of the machinery's own guard
@@ -426,7 +440,7 @@ func cmdCheck(args []string) int {
 	// obligations of the lock file that were not generated (contract target or clause disappeared)
 	var missing []string
 	for _, n := range lock.Obligations {
-		if !generated[n] && !strings.HasPrefix(n, "safe/") {
+		if !generated[n] && !strings.HasPrefix(n, "safe/") && !strings.Contains(n, "/frame-obj/") {
 			missing = append(missing, n)
 		}
 	}
@@ -502,6 +516,7 @@ func cmdCheck(args []string) int {
 			"engine_warnings":          dedup(cc.warns),
 			"lock_file_obligations":    len(lock.Obligations),
 			"missing_from_lock":        missing,
+			"dead_paths":               deadSeen,
 			"bounded":                  []string{},
 		},
 		"assumptions": propAssumptions(*prop),
